@@ -143,6 +143,23 @@ def evaluate_values(case):
             except Exception as ex:  # noqa: BLE001
                 fails.append(f"{X}_to_{Y}: raises {type(ex).__name__} on a {len(xs)}-point grid without uncertainties ({str(ex)[:60]})")
                 continue
+            # the value is a function of the abscissa and the function value alone: supplying uncertainties (some of them exactly 0, on bins
+            # whose function value is exactly 0 as well — empty bins of a histogram) changes no value
+            try:
+                ys0 = np.array(ys, copy=True)
+                ys0[::3] = 0
+                dz = np.full(len(x), 0.03125)
+                dz[::2] = 0.0
+                o_none, _ = conv(X, Y, xs, ys0, None, kw)
+                o_dz, _ = conv(X, Y, xs, ys0, dz, kw)
+                if not np.array_equal(np.asarray(o_none, dtype=float), np.asarray(o_dz, dtype=float), equal_nan=True):
+                    j = int(np.argmax(np.asarray(o_none, dtype=float) != np.asarray(o_dz, dtype=float)))
+                    fails.append(f"{X}_to_{Y}: the value at x={float(x[j])!r} (function value {float(ys0[j])!r}) changes when uncertainties are supplied "
+                                 f"(uncertainty {dz[j]!r} there): {float(np.asarray(o_none, dtype=float)[j])!r} without, {float(np.asarray(o_dz, dtype=float)[j])!r} with")
+                    return fails
+            except Exception as ex:  # noqa: BLE001
+                fails.append(f"{X}_to_{Y}: raises {type(ex).__name__} when uncertainties with exact zeros are supplied")
+                return fails
             kf = keyword_call_differs(impl.obj("Converter"), f"Converter.{X}_to_{Y}", [xs, ys, None], kw, (out, _u))
             if kf:
                 fails.append(kf)
@@ -291,6 +308,21 @@ def evaluate_unc(case):
             _, ui = conv(X, Y, x, y, di, kw)
             if np.asarray(ui).shape != np.asarray(uf).shape or not np.allclose(np.asarray(ui, dtype=float), np.asarray(uf), rtol=1e-12, atol=0):
                 fails.append(f"{X}_to_{Y}: integer-typed uncertainties give different (truncated) results than the same values as floats")
+            # one error bar for all points, given as a number: where the library accepts it (several conversions broadcast it, the others raise)
+            # what comes back is the propagation of the constant vector — for whole-number ordinates in an integer array as for floats
+            cbar = 0.3125
+            _, uvec = conv(X, Y, x, y, np.full(len(x), cbar), kw)
+            for yy, what in ((y, "float"), (np.rint(y).astype(np.int64), "integer-typed")):
+                try:
+                    _, usc_ = conv(X, Y, x, yy, cbar, kw)
+                except Exception:  # noqa: BLE001
+                    continue        # a scalar is not a vector: rejecting it is outside the property
+                usc_ = np.asarray(usc_, dtype=float)
+                if usc_.shape not in ((), np.asarray(uvec).shape) or not np.allclose(np.broadcast_to(usc_, np.asarray(uvec).shape), np.asarray(uvec, dtype=float),
+                                                                                   rtol=1e-12, atol=0, equal_nan=True):
+                    fails.append(f"{X}_to_{Y}: a scalar uncertainty {cbar} with {what} function values is accepted and propagated to "
+                                 f"{np.broadcast_to(usc_, np.asarray(uvec).shape).tolist()[:3] if usc_.shape in ((), np.asarray(uvec).shape) else usc_.shape}, the constant vector gives {np.asarray(uvec, dtype=float).tolist()[:3]}")
+                    break
             _, ub = conv(Y, X, x, v0, u0, kw)
             if pos.any() and relerr(np.asarray(ub)[pos], dy[pos], scale=max(float(np.abs(dy[pos]).max()), 1e-300)) > 1e-8:
                 fails.append(f"{X}_to_{Y} then back: uncertainty not restored")
